@@ -168,7 +168,7 @@ func c19Worker(in []byte) interface{} {
 	if err != nil {
 		cls := classifyParseErr(err.Error(), "")
 		if cls == "ArgumentNotSuppliedError" || cls == "NoSuchOutputError" || cls == "MissingOutputError" ||
-			strings.Contains(err.Error(), "wildcard binding") {
+			strings.Contains(err.Error(), "wildcard binding") || strings.Contains(err.Error(), "ArgumentNotSuppliedError") {
 			// a parameter supplied implicitly, by name, through `* = X`
 			for _, text := range nf {
 				if strings.Contains(text, "* = ") || strings.Contains(text, "*= ") {
@@ -181,6 +181,15 @@ func c19Worker(in []byte) interface{} {
 		return res
 	}
 	g1 := callGraphJSON(ast1)
+	if strings.HasPrefix(g1, "ERR:") && !strings.HasPrefix(g0, "ERR:") {
+		// the edited files compile but their call graph no longer resolves
+		cls := "other"
+		if strings.Contains(g1, "disabled") && strings.Contains(g1, "null") && strings.Contains(g1, "bound") {
+			cls = "disabled-bound-to-null"
+		}
+		add("edited-callgraph-error:"+e.Kind+":"+cls, fmt.Sprintf("after %v the files compile but the call graph no longer resolves: %s", e, truncate(g1, 400)))
+		return res
+	}
 	if strings.HasPrefix(g0, "ERR:") {
 		// the original program has no call graph to compare with
 		e.Fresh = false
@@ -228,7 +237,9 @@ func c19Worker(in []byte) interface{} {
 					if _, ok := oa.Expression[k]; !ok {
 						continue
 					}
-					if string(oa.Expression[k]) != string(v) && !strings.Contains(string(v), "null") {
+					// (a map call that loses an unused split argument keeps its forks but may
+					// name another of its - equally long - split sources as the one merged over)
+					if blankMergeOver(string(oa.Expression[k])) != blankMergeOver(string(v)) && !strings.Contains(string(v), "null") {
 						add("top-outputs-changed:"+e.Kind, fmt.Sprintf("top-level output %s resolves differently after %v: %s vs %s", k, e, truncate(string(oa.Expression[k]), 300), truncate(string(v), 300)))
 					}
 				}
@@ -269,6 +280,12 @@ func c19Worker(in []byte) interface{} {
 		}
 	}
 	return res
+}
+
+var mergeOverRe = regexp.MustCompile(`"merge_over":\{"ref":"[^"]*"`)
+
+func blankMergeOver(s string) string {
+	return mergeOverRe.ReplaceAllString(s, `"merge_over":{"ref":"*"`)
 }
 
 func init() { vf.RegisterWorker("c19", c19Worker) }
